@@ -311,6 +311,20 @@ def durable_execution(
             invocation_input.initial_execution_state.next_marker,
         )
 
+        if invocation_input.initial_execution_state.get_execution_operation() is None:
+            # The first page can be empty (payload size limits): the EXECUTION operation, which carries
+            # the input, then arrives with the paginated history. Without this the handler would be
+            # replayed with an empty event instead of the input of its first invocation.
+            for operation in execution_state.operations.values():
+                if (
+                    operation.operation_type is OperationType.EXECUTION
+                    and operation.execution_details
+                    and (paged_payload := operation.execution_details.input_payload)
+                    and paged_payload.strip()
+                ):
+                    input_event = json.loads(paged_payload)
+                    break
+
         durable_context: DurableContext = DurableContext.from_lambda_context(
             state=execution_state, lambda_context=context
         )
